@@ -73,6 +73,8 @@ pub fn mailbox_of(sim: &Sim, pid: usize) -> Vec<CV> {
 
 pub fn check(rep: &Report) {
     let quick = rep.quick();
+    // shared-await templates (several awaiters of one target, finished / failed / heap-result targets)
+    check_await_templates(rep, "C04", if quick { 60 } else { 1500 }, if quick { 24 } else { 60 });
     let n_scen = if quick { 4000 } else { 60000 };
     let n_sched = if quick { 24 } else { 100 };
     let b = qv::builtins();
@@ -192,3 +194,52 @@ pub const ASSUME: &[&str] = &[
     "scenario control flow is static (payloads are literals), so the set of sent messages is schedule independent and completion is monotone (DESIGN §2.4)",
 ];
 pub const SITUATIONS: &[&str] = &["deliver_to_finished", "deliver_while_spawning", "deliver_while_selecting", "deliver_mid_filter", "deliver_while_running", "await_answer_none_while_spawning", "scenarios_with_fan_in", "messages_left_in_mailbox", "query_target_finished"];
+
+// ---------------------------------------------------------------------------------------------
+// Shared-await templates: several processes await the same target (the scenario DSL only lets a parent await its own
+// children), targets that have already finished or failed when the await is issued, results that live on the heap, and
+// selects over a failed and a blocked process.  Each template has a schedule-independent expected outcome; a root that
+// does not finish is a lost wake-up.
+
+/// (name, source, expected root outcome: "value <show>" or "error <substring>")
+pub fn await_templates(rng: &mut Rng) -> Vec<(&'static str, String, String)> {
+    let v = rng.range(1, 90); let k = *rng.pick(&[0i64, 1, 50, 100]); let n = 2 + rng.below(3);
+    let delay = |k: i64| if k == 0 { String::new() } else { format!("! [{}] =[], ", k) };
+    let mut out = vec![];
+    // several awaiters of one (possibly still running) target, created in different orders
+    let awaiters: Vec<String> = (0..n).map(|i| format!("a{} = @#{{ !t }}", i)).collect();
+    let collect: Vec<String> = (0..n).map(|i| format!("!a{}", i)).collect();
+    out.push(("shared-await-of-a-delayed-target", format!("t = @#{{ {}{} }}, {}, [!t, {}]", delay(k), v, awaiters.join(", "), collect.join(", ")), format!("value [{}]", std::iter::repeat(v.to_string()).take(n + 1).collect::<Vec<_>>().join(", "))));
+    out.push(("shared-await-awaiters-first-collected-first", format!("t = @#{{ {}{} }}, {}, [{}, !t]", delay(k), v, awaiters.join(", "), collect.join(", ")), format!("value [{}]", std::iter::repeat(v.to_string()).take(n + 1).collect::<Vec<_>>().join(", "))));
+    out.push(("shared-await-of-a-target-released-by-a-message", format!("t = @#{{ !#'int }}, {}, {} t, [{}]", awaiters.join(", "), v, collect.join(", ")), format!("value [{}]", std::iter::repeat(v.to_string()).take(n).collect::<Vec<_>>().join(", "))));
+    // heap-binary results awaited by several processes / on the same worker as the target
+    out.push(("shared-await-of-a-heap-binary-result", format!("q = @#{{ {} }}, p = @#{{ !#'int, [0x01, 0x02] __binary_concat__ }}, a0 = @#{{ !p }}, 1 p, [!p, !q, !a0]", v), format!("value [0x0102, {}, 0x0102]", v)));
+    // a target that has already failed (or fails later) awaited directly and through a select next to a blocked process
+    out.push(("select-over-a-failed-and-a-blocked-process", format!("f = @#{{ {}[1, 0] __integer_divide__ }}, g = @#{{ !#'int }}, {}! [f, g]", delay(k), delay(*rng.pick(&[0i64, 100, 200]))), "error Division by zero".to_string()));
+    out.push(("failed-target-awaited-by-several", format!("f = @#{{ {}[1, 0] __integer_divide__ }}, a0 = @#{{ !f }}, a1 = @#{{ !f }}, !a0", delay(k)), "error Division by zero".to_string()));
+    out.push(("await-after-the-target-finished", format!("t = @#{{ {} }}, ! [{}] =[], a0 = @#{{ !t }}, [!a0, !t, !t]", v, 10 + k), format!("value [{}, {}, {}]", v, v, v)));
+    out
+}
+
+/// run the templates under schedule variants; `prop` is the property reporting them
+pub fn check_await_templates(rep: &Report, prop: &str, rounds: usize, n_sched: usize) {
+    let b = qv::builtins();
+    crate::pool::run_indexed(rounds, 256, |i| {
+        let mut rng = Rng::derive(rep.seed, "await-templates", 0, i as u64);
+        for (name, src, expect) in await_templates(&mut rng) {
+            let bc = match compile_entry(&src, &b) { Ok(bc) => bc, Err(e) => { rep.violation(Violation { signature: format!("{}:harness-template-rejected:{}", prop, name), what: format!("{:?}", e), witness: json!({"source": src}) }); continue; } };
+            for cfg in crate::c03::sched_variants(&mut rng, n_sched) {
+                let obs = crate::c03::run_once(&bc, &b, &cfg, 200_000);
+                rep.eval(1); rep.count(&format!("template={}", name), 1); rep.count(&format!("template_workers={}", cfg.workers), 1);
+                if let RunEnd::Trouble(t) = &obs.end { rep.violation(Violation { signature: format!("{}:template-trouble:{}", prop, name), what: format!("{:?}", t), witness: json!({"source": src, "workers": cfg.workers, "strategy": format!("{:?}", cfg.strat), "seed": cfg.seed}) }); break; }
+                let got = match obs.fates.get("r") { Some(Fate::Done(v)) => format!("value {}", v.show()), Some(Fate::Failed(e)) => format!("error {:?}", e), _ => "root never finished".to_string() };
+                let ok = if let Some(sub) = expect.strip_prefix("error ") { got.starts_with("error") && got.contains(sub) } else { got == expect };
+                if !ok {
+                    let kind = if got == "root never finished" { "lost-wake-up" } else if expect.starts_with("error") { "failure-not-delivered" } else { "wrong-result" };
+                    rep.violation(Violation { signature: format!("{}:{}:{}", prop, kind, name), what: format!("template {} under {} workers / {:?}: expected {}, got {} (run ended {:?})", name, cfg.workers, cfg.strat, expect, got, obs.end), witness: json!({"source": src, "workers": cfg.workers, "strategy": format!("{:?}", cfg.strat), "quantum": format!("{:?}", cfg.qp), "seed": cfg.seed, "expected": expect, "got": got}) });
+                    break;
+                }
+            }
+        }
+    });
+}
